@@ -10,7 +10,7 @@ CLAIMED = {
 
     "C17": dict(level="fault_enumeration", ref="DESIGN.md §4 C17",
         technique="deterministic simulation: fault injection at interior points of every public call (line interrupts, allocation failures, natural errors) with byte-level argument snapshots",
-        text="Every callable of a 175-entry catalogue (functions, numpy spellings, operators incl. reflected, methods, properties; optional keywords such as where=, print options) is called on generated arguments, including already-aligned operands that make internal aliasing possible, in four run classes: fault-free, natural error (spoiled arguments), asynchronous interrupt at executed line k of numpoly code (k from a fault-free dry run; thorough enumerates every k up to 1500 lines per call), MemoryError at allocation k (every k). All arguments are snapshotted byte-for-byte before and compared after, whatever the outcome; after a failed call the option dict and dispatch registries are re-checked. Allocation requests include numpy's array-creating functions called from numpoly code; arguments also come as bool/narrow dtypes, transposed or reversed views (their parents are snapshotted too), the same object twice, operands with names in reverse order, 0-d array axes, and arrays handed directly to constructors and index utilities; a share of the runs has warnings/numpy error state escalated to exceptions. An argument that can no longer be read afterwards counts as changed.",
+        text="Every callable of a 172-entry catalogue (functions, numpy spellings, operators incl. reflected, methods, properties; optional keywords such as where=, print options) is called on generated arguments, including already-aligned operands that make internal aliasing possible, in four run classes: fault-free, natural error (spoiled arguments), asynchronous interrupt at executed line k of numpoly code (k from a fault-free dry run; thorough enumerates every k up to 1500 lines per call), MemoryError at allocation k (every k). All arguments are snapshotted byte-for-byte before and compared after, whatever the outcome; after a failed call the option dict and dispatch registries are re-checked. Allocation requests include numpy's array-creating functions called from numpoly code; arguments also come as bool/narrow dtypes, transposed or reversed views (their parents are snapshotted too), the same object twice, operands with names in reverse order, 0-d array axes, and arrays handed directly to constructors and index utilities; a share of the runs has warnings/numpy error state escalated to exceptions. An argument that can no longer be read afterwards counts as changed.",
         note="Cython frames are invisible to the line tracer (they run to completion). Explicit output targets (out=, copyto destination) are not generated."),
     "C18": dict(level="exploration", ref="DESIGN.md §4 C18",
         technique="deterministic simulation: adversarial tie orders of the unstable sort (SortSeam) against a comparison-based reference sort and brute-force index enumeration",
@@ -31,7 +31,7 @@ CLAIMED = {
 
     "C11": dict(level="exploration", ref="DESIGN.md §4 C11",
         technique="deterministic simulation: tie-order seam x heap-content seam, numpy itself as the oracle on the raw arrays",
-        text="For 80 mirrored functions with argument generators (a systematic function x operand-kind sweep first), numeric arrays with many repeated values are wrapped as constant polynomials (plain, with unused names, with retained zero terms) and the numpoly result (numpoly and numpy-dispatch spellings) is compared with numpy's on the raw arrays under (tie policy, heap fill) environments; argmax/argmin ties, amax/amin along axes and every allocation-dependent result must agree with numpy and be identical across environments; non-constant divisors must raise FeatureNotSupported. Spellings: numpoly, numpy dispatch, and the method form for the functions the library's own tests exercise as methods. History: option prelude, the same call earlier on narrower dtypes / with an equal number spelled differently / with more keywords, an interrupted earlier call, query-update-query on one object, the polynomial as its own out=. Inputs also as transposed views, read-only storage, aliased operands, narrow and large-valued data, infinities in comparison functions and isclose, order= arguments (the numpy reference gets the same memory layout); a share of runs under errstate(invalid/divide=raise) and in python -O.",
+        text="For 82 mirrored functions with argument generators (a systematic function x operand-kind sweep first), numeric arrays with many repeated values are wrapped as constant polynomials (plain, with unused names, with retained zero terms) and the numpoly result (numpoly and numpy-dispatch spellings) is compared with numpy's on the raw arrays under (tie policy, heap fill) environments; argmax/argmin ties, amax/amin along axes and every allocation-dependent result must agree with numpy and be identical across environments; non-constant divisors must raise FeatureNotSupported. Spellings: numpoly, numpy dispatch, and the method form for the functions the library's own tests exercise as methods. History: option prelude, the same call earlier on narrower dtypes / with an equal number spelled differently / with more keywords, an interrupted earlier call, query-update-query on one object, the polynomial as its own out=. Inputs also as transposed views, read-only storage, aliased operands, narrow and large-valued data, infinities in comparison functions and isclose, order= arguments (the numpy reference gets the same memory layout); a share of runs under errstate(invalid/divide=raise) and in python -O.",
         note="Only 'numpy returns => numpoly returns the same' is asserted. Text functions, savetxt and copyto are not compared (C16/C13/output target). numpy.det is compared with an absolute tolerance (floating-point LU vs exact expansion). Four genuine defects are listed in known_findings.json. bool and NaN data are outside the quantifier (numpoly differs from numpy there; DESIGN 10)."),
 
     "C12": dict(level="exploration", ref="DESIGN.md §4 C12",
